@@ -521,6 +521,20 @@ static void patch_patchable_func_matched(struct mcount_dynamic_info *mdi, struct
 	for (i = 0; i < mdi->nr_patch_target; i++) {
 		uint64_t rel_addr = patchable_loc[i];
 		struct uftrace_symbol *searched_sym = find_sym(symtab, rel_addr);
+		unsigned k;
+
+		/*
+		 * -fpatchable-function-entry=N,M puts M of the NOPs (and the
+		 * recorded location) in front of the function.  A call written
+		 * at the location would then cover the function's entry point:
+		 * use the function that begins right behind the location.
+		 */
+		for (k = 1; searched_sym == NULL && k < 5; k++) {
+			struct uftrace_symbol *next = find_sym(symtab, rel_addr + k);
+
+			if (next && next->addr == rel_addr + k)
+				searched_sym = next;
+		}
 
 		if (searched_sym == NULL) {
 			sym = &fake_sym;
